@@ -63,6 +63,10 @@ func c17File(layout int, today ref.Date, h12 bool, indent string) string {
 		// neither today nor yesterday
 	case 4:
 		sb.WriteString(yOpen + tClosed)
+	case 5: // (--now only) an open range in tomorrow's record: not closeable at any instant of today
+		sb.WriteString(tClosed + "\n" + d(1) + "\n" + indent + tm(480) + " - ? planned\n")
+	case 6: // (--now only) an open range in the record of the day before yesterday: stale
+		sb.WriteString(d(-2) + "\n" + indent + tm(1200) + " - ? forgotten\n\n" + tClosed)
 	}
 	return sb.String()
 }
@@ -109,7 +113,7 @@ func runC17(e *core.Env) {
 			}
 		}
 		// --now evaluation at this minute, every layout
-		for lay := 0; lay < c17Layouts; lay++ {
+		for lay := 0; lay < c17Layouts+2; lay++ { // +2: the layouts whose open range lies in a future / a stale record
 			n++
 			c17Now(e, r, file, today, b.minute, lay)
 		}
